@@ -21,11 +21,12 @@ STREAM = 'tree'
 FINAL = ('SUCCESS', 'ERROR', 'CANCELLED')
 SKIP_SIG = {'kind': 'cancel-skips-running-descendants-of-a-finished-child'}
 LATE_SIG = {'kind': 'subworkflow-started-below-cancelled-workflow'}
+LOST_SIG = {'kind': 'post-commit-operation-lost-after-expire-all'}
 RESTOP_SIG = {'kind': 'second-stop-success-rewrites-message-and-reports-again'}
 
 
 # ======================================================================================= generator
-def gen_case(rng, p_ops=0.85, p_pause=0.35):
+def gen_case(rng, p_ops=0.85, p_pause=0.35, resume_items=False):
     depth = rng.choice([2, 2, 3, 3, 3])
     defs = []
     for lvl in range(depth):
@@ -64,15 +65,17 @@ def gen_case(rng, p_ops=0.85, p_pause=0.35):
         n = rng.choice([1, 1, 2, 3])
         at = 0
         paused = False
-        # resume x with-items callers: residual model/engine differences in the scheduled-update corner cases
-        # (see docs/C10.md); resume commands are generated for trees of plain callers only
+        # resume x with-items callers (resume_items): when a resumed with-items child completes inside the resume
+        # transaction, check_and_complete()'s expire_all() expires + detaches the ScheduledJob objects the
+        # scheduler keeps in memory; those update jobs leave the scheduler's memory and only run after the store
+        # poller's pickup delay, which this harness cannot deliver one at a time (docs/C10.md)
         has_items = any(t['kind'] != 'action' and t['kind'].get('items') is not None for d in defs for t in d)
         for i in range(n):
             at += rng.randint(1, 30 if i == 0 else 12)
             prefs = ['running', 'running', 'inner', 'root', 'any', 'finished', 'item'] + \
                 (['again', 'again', 'parent', 'parent'] if i else [])
             r = rng.random()
-            if paused and r < 0.45 and not has_items:
+            if paused and r < 0.45 and (resume_items or not has_items):
                 o = {'at': at, 'op': 'resume', 'which': rng.randint(0, 7),
                      'pref': rng.choice(['paused', 'paused', 'root', 'again', 'any'])}
                 paused = False
@@ -325,6 +328,15 @@ def run_case(case, script=None, max_steps=500):
         events = []
         robs = []
         unsupported = None
+        lost = []
+        swallowed = []
+        from mistral.engine import post_tx_queue as _ptq
+
+        def _log_exception(msg, *a, **k):
+            import sys as _sys
+            swallowed.append(type(_sys.exc_info()[1]).__name__)
+        saved_log_exception = _ptq.LOG.exception
+        _ptq.LOG.exception = _log_exception
         last_target = [0]
 
         def do_stop(wf_rank, state, msg, op='stop'):
@@ -351,8 +363,16 @@ def run_case(case, script=None, max_steps=500):
             else:
                 if mi['k'] == 'rpcChildResult':
                     mp.got[mi['_wf']] = mp.got.get(mi['_wf'], 0) + 1
+                del swallowed[:]
                 w.deliver(it, oracle=oracle)
-                events.append({'ev': 'deliver', 'item': {k: v for k, v in mi.items() if not k.startswith('_')}})
+                item = {k: v for k, v in mi.items() if not k.startswith('_')}
+                if swallowed and it[0] == 'p' and it[1].kind == 'posttx':
+                    # post_tx_queue swallowed the exception of this (non-transactional) operation: what it
+                    # would have sent is lost
+                    lost.append({'item': item, 'type': swallowed[0], 'step': len(events)})
+                    events.append({'ev': 'lose', 'item': item})
+                else:
+                    events.append({'ev': 'deliver', 'item': item})
             robs.append(real_obs(w, mp))
 
         w.start_workflow('w0', {})
@@ -407,10 +427,14 @@ def run_case(case, script=None, max_steps=500):
                 break
             deliver(it, mi)
             step += 1
-        return {'yaml': y, 'events': events, 'real': robs, 'unsupported': unsupported,
+        return {'yaml': y, 'events': events, 'real': robs, 'unsupported': unsupported, 'lost': lost,
                 'errors': [{k: e.get(k) for k in ('where', 'declared', 'type', 'msg')} for e in w.errors],
                 'exhausted': exhausted}
     finally:
+        try:
+            _ptq.LOG.exception = saved_log_exception
+        except NameError:
+            pass
         cfg.CONF.clear_override('start_subworkflows_via_rpc', group='engine')
 
 
@@ -471,6 +495,8 @@ def monitor(run):
     for e in run['errors']:
         if not e['declared']:
             hits.append(('undeclared-error', {'kind': 'undeclared-error', 'type': e['type']}, e))
+    for l in run.get('lost', []):
+        hits.append(('post-commit-operation-lost', dict(LOST_SIG, op=l['item']['k'], type=l['type']), l))
     frozen = {}      # execution -> (state, info, out) once final
     ntasks_at_final = {}
     for k, o in enumerate(obs):
@@ -533,10 +559,8 @@ def monitor(run):
                     if ex[3] != 'CANCELLED':
                         hits.append(('descendant-not-cancelled', sig,
                                      {'cancelled': a, 'exec': x, 'state': ex[3], 'finished-on-path': blocked, 'step': k}))
-                    elif last['tasks'][ex[1]][2] not in ('CANCELLED', 'ERROR') and \
+                    elif last['tasks'][ex[1]][2] != 'CANCELLED' and \
                             before['tasks'][ex[1]][2] not in ('SUCCESS', 'ERROR', 'CANCELLED'):
-                        # ERROR: a with-items task of a completed workflow whose further items are refused (repo
-                        # patch 16) completes with ERROR before the results of its cancelled items arrive
                         # (a task that was already completed when the cancel came keeps its state)
                         hits.append(('parent-task-not-cancelled', {'kind': 'parent-task-not-cancelled'},
                                      {'cancelled': a, 'exec': x, 'task': ex[1], 'task_state': last['tasks'][ex[1]][2]}))
@@ -587,6 +611,8 @@ def monitor_pause(run):
     for e in run['errors']:
         if not e['declared']:
             hits.append(('undeclared-error', {'kind': 'undeclared-error', 'type': e['type']}, e))
+    for l in run.get('lost', []):
+        hits.append(('post-commit-operation-lost', dict(LOST_SIG, op=l['item']['k'], type=l['type']), l))
     for k in range(1, len(obs)):
         b, a, e = obs[k - 1], obs[k], ev[k]
         # "Pause creates no new tasks": no task row appears in an execution that is PAUSED before and after
